@@ -206,6 +206,19 @@ theorem single_error_is_the_error (s : Stack) (hl : s.Loud) (e : Err) (tl : Att)
 example : callErr (run Fixes.all { udReq := [[.ok, .fail (.stage 7)]], transport := [.fail (.stage 7)], maxRetries := 1 })
     = some (.stage 7) := by decide
 
+/-- a non-trivial stack satisfying the hypothesis of `stage_error_is_seen` -/
+def exLoud : Stack :=
+  { udReq := [[.ok], [.ok, .fail (.stage 2)]],
+    wrappers := [[.postErr (.stage 3)], [.pass, .shortNil (.stage 4)]],
+    transport := [.resp (⟨500, [], none, true, false, false⟩), .fail (.stage 5)],
+    clientResp := [[.set (.stage 6)]],
+    reqResp := [[.mw (.ret (.stage 7))], [.digest true (.fail (.stage 8))]],
+    errorTarget := true,
+    maxRetries := 1 }
+
+example : exLoud.Loud := by unfold Stack.Loud; decide
+example : callErr (run Fixes.all exLoud) = some (.stage 6) := by decide
+
 /-- Without the repair of request.go `do` (DESIGN section 5 row 4) an error IS lost: a wrapper
 returns `(resp, err)` without recording `err`, a request-level middleware returns nil. -/
 theorem as_found_error_lost :
